@@ -33,6 +33,7 @@ broadcast use axiom_seal_len, axiom_open_unique, lemma_len0_empty, axiom_v4_len,
 
 //@include ../common_cipher.rs
 //@include ../parts/addr.rs
+//@include ../parts/cipher.rs
 //@include ../parts/sschunk.rs
 //@include ../parts/sstcp.rs
 //@include ../parts/pwin.rs
